@@ -749,8 +749,14 @@ func (fc *FnCtx) enterLoop(li *loopInfo, st *State) {
 	env.AtBlock = li.Header
 	// 1. invariants hold on entry
 	for _, cl := range li.Spec.Invariants {
-		t := fc.evalClause(env, cl)
-		fc.oblige(st, site+".invariant", cl.Label, "entry", t, cl.Src)
+		parts := fc.evalClauseParts(env, cl)
+		for i, t := range parts {
+			lab := cl.Label
+			if len(parts) > 1 {
+				lab = fmt.Sprintf("%s/%d", cl.Label, i+1)
+			}
+			fc.oblige(st, site+".invariant", lab, "entry", t, cl.Src)
+		}
 	}
 	// 2. havoc
 	fc.havocLoop(li, st)
@@ -761,6 +767,12 @@ func (fc *FnCtx) enterLoop(li *loopInfo, st *State) {
 	for _, cl := range li.Spec.Invariants {
 		t := fc.evalClause(env, cl)
 		fc.S.Assume(Implies(st.PC, t), site+" invariant "+cl.Label)
+	}
+	// loop frame: of the objects that existed at loop entry only the listed locations change
+	if li.Spec.HasFrame {
+		for _, f := range fc.loopFrames(li, st) {
+			fc.S.Assume(Implies(st.PC, f.T), site+" frame "+f.Name)
+		}
 	}
 	// canary: the loop head must be reachable under the invariants
 	o := fc.oblige(st, site+".canary", "", "", TFalse, "reachability of the loop head under its invariants")
@@ -785,6 +797,8 @@ func (fc *FnCtx) havocLoop(li *loopInfo, st *State) {
 		names = append(names, n)
 	}
 	sort.Strings(names)
+	nonFresh := fc.loopNonFreshWrites(li)
+	entryNext := fc.heapGet(st, nextVar)
 	for _, n := range names {
 		hv := ws[n]
 		old := fc.heapGet(st, hv)
@@ -792,6 +806,12 @@ func (fc *FnCtx) havocLoop(li *loopInfo, st *State) {
 		st.Heap[hv.Name] = nw
 		if hv.Name == "$next" {
 			fc.S.Assume(app(SBool, ">=", nw, old), "allocation counter grows")
+			continue
+		}
+		if !nonFresh[n] && strings.HasPrefix(hv.Sort, "(Array Int") && hv.Kind != HGhost && hv.Kind != HGlobal {
+			// every write of the loop body to this heap goes to an object the body itself
+			// allocated: objects that existed at loop entry are unchanged
+			fc.S.Assume(Implies(st.PC, Term{fmt.Sprintf("(forall ((r!f Int)) (! (=> (< r!f %s) (= (select %s r!f) (select %s r!f))) :pattern ((select %s r!f))))", entryNext.S, nw.S, old.S, nw.S), SBool}), "loop frame: "+n+" only written on objects allocated by the loop body")
 		}
 	}
 	// the allocation counter may grow in any loop that allocates
@@ -808,6 +828,92 @@ func (fc *FnCtx) havocLoop(li *loopInfo, st *State) {
 		fc.vals[phi] = tv(nv)
 		fc.assumeWF(st, nv, phi.Type(), "loop phi")
 	}
+}
+
+type namedTerm struct {
+	Name string
+	T    Term
+}
+
+// loopFrames: for every heap variable the loop may write at a pre-existing
+// object, the statement that (relative to the state at loop entry) only the
+// locations of the loop's frame clause changed.
+func (fc *FnCtx) loopFrames(li *loopInfo, cur *State) []namedTerm {
+	ws, _, _ := fc.loopWrites(li)
+	nonFresh := fc.loopNonFreshWrites(li)
+	env := fc.specEnv(li.Entry)
+	env.AtBlock = nil
+	locs := fc.locsOfExprs(li.Entry, env, li.Spec.Frame, li.Spec.FrameSrc, fmt.Sprintf("loop %d frame", li.Ordinal))
+	var out []namedTerm
+	for _, n := range sortedHeapNames(ws) {
+		hv := ws[n]
+		if !nonFresh[n] || hv.Kind == HGhost || hv.Kind == HGlobal || !strings.HasPrefix(hv.Sort, "(Array Int") {
+			continue
+		}
+		f := fc.frameFormula(li.Entry, cur, hv, locs[n])
+		if f.S == "true" {
+			continue
+		}
+		out = append(out, namedTerm{n, f})
+	}
+	return out
+}
+
+// loopNonFreshWrites: heap variables that the loop body may write at an
+// object that already existed at loop entry (syntactic, conservative).
+func (fc *FnCtx) loopNonFreshWrites(li *loopInfo) map[string]bool {
+	nf := map[string]bool{}
+	inLoop := func(v ssa.Value) bool {
+		in, ok := v.(ssa.Instruction)
+		return ok && in.Block() != nil && li.Blocks[in.Block()]
+	}
+	// freshBase: the object written through addr was allocated inside the loop body
+	var freshBase func(addr ssa.Value) bool
+	freshBase = func(addr ssa.Value) bool {
+		switch a := addr.(type) {
+		case *ssa.FieldAddr:
+			return freshBase(a.X)
+		case *ssa.IndexAddr:
+			switch x := a.X.(type) {
+			case *ssa.Alloc:
+				return inLoop(x)
+			case *ssa.MakeSlice:
+				return inLoop(x)
+			case *ssa.Slice:
+				return freshBase(x.X)
+			}
+			return false
+		case *ssa.Alloc:
+			return inLoop(a)
+		case *ssa.MakeMap:
+			return inLoop(a)
+		case *ssa.MakeSlice:
+			return inLoop(a)
+		}
+		return false
+	}
+	for b := range li.Blocks {
+		for _, in := range b.Instrs {
+			one := map[string]HeapVar{}
+			switch x := in.(type) {
+			case *ssa.Store:
+				if freshBase(x.Addr) {
+					continue
+				}
+			case *ssa.MapUpdate:
+				if freshBase(x.Map) {
+					continue
+				}
+			case *ssa.Alloc, *ssa.MakeMap, *ssa.MakeSlice, *ssa.Next, *ssa.Range:
+				continue
+			}
+			fc.E.instrWrites(fc, in, one, 0)
+			for n := range one {
+				nf[n] = true
+			}
+		}
+	}
+	return nf
 }
 
 func isPtrLike(v Val) bool { return v.P != nil || v.Fn != nil || v.Tup != nil }
@@ -843,13 +949,28 @@ func (fc *FnCtx) closeLoop(li *loopInfo, from *ssa.BasicBlock, st *State, cond T
 	env.AtBlock = li.Header
 	env.Named["loop"] = li.Entry
 	site := fmt.Sprintf("loop%d", li.Ordinal)
-	for _, cl := range li.Spec.Invariants {
-		t := fc.evalClause(env, cl)
-		s := "preserved"
-		if len(li.BackFrom) > 1 {
-			s = fmt.Sprintf("preserved%d", from.Index)
+	s := "preserved"
+	if len(li.BackFrom) > 1 {
+		for k, b := range li.BackFrom {
+			if b == from {
+				s = fmt.Sprintf("preserved.%d", k+1)
+			}
 		}
-		fc.oblige(st2, site+".invariant", cl.Label, s, t, cl.Src)
+	}
+	for _, cl := range li.Spec.Invariants {
+		parts := fc.evalClauseParts(env, cl)
+		for i, t := range parts {
+			lab := cl.Label
+			if len(parts) > 1 {
+				lab = fmt.Sprintf("%s/%d", cl.Label, i+1)
+			}
+			fc.oblige(st2, site+".invariant", lab, s, t, cl.Src)
+		}
+	}
+	if li.Spec.HasFrame {
+		for _, f := range fc.loopFrames(li, st2) {
+			fc.oblige(st2, site+".frame", f.Name, s, f.T, "of the objects existing at loop entry only "+strings.Join(li.Spec.FrameSrc, ", ")+" may change in "+f.Name)
+		}
 	}
 	for phi, v := range saved {
 		fc.vals[phi] = v
